@@ -2,9 +2,9 @@
 
 Proof: GardenVerif.Props.C07 over the machine model M4 + the session's `:resume` (Model/Resume.lean):
 `error_restore_fixpoint` / `resume_any_number` (an error step that restores the stack exactly is a
-fixpoint of `:resume`), `site_restores` (every error site of `Machine.dispatch` in `GoodSite` restores
-exactly), concrete negative witnesses for the sites outside `GoodSite`, and
-`builtin_arms_restore_shape` over the regenerated table of `saved_values` shapes (tie T).
+fixpoint of `:resume`), `every_site_restores` (EVERY error site of `Machine.dispatch` restores exactly),
+`resume_same_error` (hence any number of `:resume`s after any error step give the same error on the same
+stack), and `builtin_arms_restore_shape` over the regenerated table of `saved_values` shapes (tie T).
 
 Tie (C): `garden reftest-json-session` transcripts — a failing `run`, then `:resume` x 3 — against the
 model's `resume_run` (error kind per response, crash = panic) for the programs inside the model's
